@@ -60,14 +60,49 @@ Theorem C16_reply_empty_unknown : forall n, reply_parse n [] = RUnknown.
 Proof. exact reply_empty. Qed.
 
 (* the canonical replies cut before the terminating 0 are Unknown, for every split of the value
-   lines.  PARTIAL: the cut is at a word boundary; a cut inside a literal is covered only through
-   C16_reply_sat_needs_status_and_terminator (it is not proved here that a cut literal never reads
-   as 0, which holds because canonical literals have no leading 0). *)
+   lines.  PARTIAL: the cut is at a word boundary only (and ignorable lines may follow the cut).
+   Kept as it was; the full-strength statement (a cut ANYWHERE before the terminating 0, also
+   inside a literal / the `v` marker / the status line / a comment) is C16_reply_truncated below. *)
 Theorem C16_reply_truncated_partial : forall pre lay post m,
   (Z.of_nat (length m) <= isize_max)%Z ->
   forallb filler_ok pre = true -> layout_ok lay = true -> forallb filler_ok post = true ->
   reply_parse (length m) (render_fill pre ++ status_sat ++ render_v_cut lay (model_lits m) ++ render_fill post) = RUnknown.
 Proof. exact reply_truncated_unknown. Qed.
+
+(* FULL STRENGTH: a canonical SAT reply (status line first or last, every split of the value lines,
+   ignorable lines anywhere) cut ANYWHERE before the 0 that terminates the value lines is never
+   reported as a result (neither a model nor Unsat): it is Unknown or a panic.
+   The equation says: the complete reply is [out] (what was received), then [cut] (lost), then the
+   terminating `0` with its line feed, then what follows the value lines (the status line if it
+   comes last, and the ignorable lines [post]).  Since [render_sat] is
+   [render_fill pre ++ status? ++ render_v lay (model_lits m) ++ status? ++ render_fill post] and
+   [render_v] ends with " 0\n", this determines [out ++ cut] uniquely as the text up to, excluding,
+   the terminating 0 (C16_reply_cut_point: such a decomposition exists for every reply), and
+   [out] ranges over ALL its prefixes: cuts inside a literal ("-1" of "-12", or "-" alone: a
+   panic), inside or right after the `v` marker, inside the status line (a panic), inside a
+   comment, at a line end, the empty output.  It holds whatever the declared variable count [n]
+   is (the reader is called with [n = length m]) and needs no size bound; [filler_ok] (comments
+   are ASCII without line feed / carriage return) is needed: a comment containing a line feed
+   could smuggle in a status or value line. *)
+Theorem C16_reply_truncated : forall n status_last pre lay post m out cut,
+  forallb filler_ok pre = true -> layout_ok lay = true ->
+  render_sat status_last pre lay post m =
+    out ++ cut ++ [48; 10]%N ++ (if status_last then status_sat else []) ++ render_fill post ->
+  reply_parse n out = RUnknown \/ reply_parse n out = RPanic.
+Proof. exact reply_truncated_any_cut. Qed.
+
+(* every canonical SAT reply has this shape (the hypothesis above is satisfiable for all
+   parameters, e.g. with [out := before0], [cut := []] or any other split of [before0]) *)
+Theorem C16_reply_cut_point : forall status_last pre lay post m, exists before0,
+  render_sat status_last pre lay post m =
+    before0 ++ [48; 10]%N ++ (if status_last then status_sat else []) ++ render_fill post.
+Proof. exact reply_cut_point. Qed.
+
+(* the key fact behind it: a non-empty prefix of the decimal text of a non-zero literal is never
+   read as the literal 0 (it is another literal, or not a literal at all) *)
+Theorem C16_cut_literal_not_zero : forall l tok e, l <> 0%Z -> tok <> [] -> tok ++ e = print_lit l ->
+  parse_isize tok <> Some 0%Z.
+Proof. exact cut_literal_not_zero. Qed.
 
 (* ---------------------------------------------------------------- (c) no hang *)
 (* parent = drain stdout to end-of-file, then wait (the code as it is): for every child program,
@@ -99,6 +134,17 @@ Example C16_example_reply :
   = RSat [Some true; None; Some false].
 Proof. vm_compute. reflexivity. Qed.
 
+(* cuts inside the literal -10 of the reply "s SATISFIABLE\nv -10 0\n": "v -1" is read as another
+   literal and there is no terminator (Unknown); "v -" is not a literal (panic) *)
+Example C16_example_truncated :
+  let m := repeat None 9 ++ [Some false] in
+  let out := (status_sat ++ [118; 32; 45; 49])%N in
+  render_sat false [] [] [] m = out ++ [48; 32]%N ++ [48; 10]%N ++ [] ++ render_fill [] /\
+  reply_parse (length m) out = RUnknown /\
+  reply_parse (length m) (status_sat ++ [118; 32; 45]%N) = RPanic /\
+  reply_parse (length m) (render_sat false [] [] [] m) = RSat m.
+Proof. vm_compute. repeat split; reflexivity. Qed.
+
 Print Assumptions C16_instance_wellformed.
 Print Assumptions C16_strict_parser_roundtrip.
 Print Assumptions C16_strict_parser_sound.
@@ -108,6 +154,9 @@ Print Assumptions C16_reply_sat_needs_status_and_terminator.
 Print Assumptions C16_reply_unsat_needs_status.
 Print Assumptions C16_reply_empty_unknown.
 Print Assumptions C16_reply_truncated_partial.
+Print Assumptions C16_reply_truncated.
+Print Assumptions C16_reply_cut_point.
+Print Assumptions C16_cut_literal_not_zero.
 Print Assumptions C16_pipe_never_stuck.
 Print Assumptions C16_pipe_runs_finite.
 Print Assumptions C16_wait_then_drain_can_hang.
